@@ -128,14 +128,18 @@ def run(ctx):
                 sig = {'kind': 'power-after-rescale', 'upscale': s > 1, 'nseg>1': nseg > 1}
                 if abs(p1 - p0) > 2e-2 * p0:
                     ctx.violation(sig, {'shape': shape, 'scale': s, 'power_before': p0, 'power_after': p1}, case=None)
-                if nseg == 1:
-                    w0 = lentil.Wavefront(1e-6) * plane
-                    w1 = lentil.Wavefront(1e-6) * r
-                    a = lentil.propagate_dft(w0, pixelscale=3e-7, shape=24, oversample=1).intensity      # ~2x Nyquist for a 16 m aperture
-                    b = lentil.propagate_dft(w1, pixelscale=3e-7, shape=24, oversample=1).intensity
-                    if np.abs(a - b).max() > 3e-2 * a.max():
-                        ctx.violation({'kind': 'image-after-rescale', 'upscale': s > 1}, {'shape': shape, 'scale': s,
-                                                                                        'max_rel_diff': float(np.abs(a - b).max() / a.max())}, case=None)
+                # the optics seen THROUGH the plane (multiply, then propagate), monolithic and segmented alike
+                w0 = lentil.Wavefront(1e-6) * plane
+                w1 = lentil.Wavefront(1e-6) * r
+                t0, t1 = float(w0.intensity.sum()), float(w1.intensity.sum())
+                if abs(t1 - t0) > 2e-2 * t0:
+                    ctx.violation({'kind': 'transmitted-power-after-rescale', 'upscale': s > 1, 'nseg>1': nseg > 1},
+                                  {'shape': shape, 'scale': s, 'before': t0, 'after': t1}, case=None)
+                a = lentil.propagate_dft(w0, pixelscale=3e-7, shape=24, oversample=1).intensity      # ~2x Nyquist for a 16 m aperture
+                b = lentil.propagate_dft(w1, pixelscale=3e-7, shape=24, oversample=1).intensity
+                if np.abs(a - b).max() > 3e-2 * a.max():
+                    ctx.violation({'kind': 'image-after-rescale', 'upscale': s > 1, 'nseg>1': nseg > 1},
+                                  {'shape': shape, 'scale': s, 'max_rel_diff': float(np.abs(a - b).max() / a.max())}, case=None)
     ctx.traces += len(res.emits) * 2
     ctx.extra.update({'bookkeeping_cases_from_TLC': len(res.emits), 'numeric_leaf_cases': nleaf,
                       'outside_model': ['transmitted power to interpolation accuracy (2e-2)', 'propagated image to interpolation accuracy (3e-2 of peak)']})
